@@ -54,12 +54,14 @@ Fixpoint enc (k : kind) (v : goval) : option dbval :=
         match v with GNil => Some DNull | GSome v' => enc k' v' | _ => None end
     | KCustom k' => enc k' v          (* canonical value of a Valuer = what Value() returns *)
     | KSer SUnix k' =>
-        (* UnixSecondSerializer.Value: time.Unix(reflect.Indirect(rv).Int(), 0); Int() on an
-           unsigned kind panics; a nil pointer is NULL *)
+        (* UnixSecondSerializer.Value: time.Unix(seconds, 0) from a signed or unsigned integer
+           (int8/uint8 are rejected by the serializer and not modelled); a nil pointer is NULL *)
         match k', v with
         | KInt w, GInt z => if int_ok w z then Some (DOpq (z * giga)) else None
-        | KPtr (KInt w), GNil => Some DNull
+        | KUint w, GInt z => if uint_ok w z then Some (DOpq (z * giga)) else None
+        | KPtr (KInt w), GNil | KPtr (KUint w), GNil => Some DNull
         | KPtr (KInt w), GSome (GInt z) => if int_ok w z then Some (DOpq (z * giga)) else None
+        | KPtr (KUint w), GSome (GInt z) => if uint_ok w z then Some (DOpq (z * giga)) else None
         | _, _ => None
         end
     | KSer _ k' => enc k' v           (* json: text, "null" is NULL; gob: opaque (decoded projection) *)
@@ -150,7 +152,6 @@ Fixpoint in_range (k : kind) (v : goval) : bool :=
     | KUint w => match v with GInt z => uint_ok w z | _ => false end
     | KPtr k' | KNull k' => match v with GSome v' => in_range k' v' | _ => true end
     | KCustom k' => in_range k' v
-    | KSer SUnix (KUint _) | KSer SUnix (KPtr (KUint _)) => true   (* "only int, uint supported" *)
     | KSer _ k' => in_range k' v
     | _ => true
     end
